@@ -1,6 +1,7 @@
 package main
 
 import (
+	"go/printer"
 	"encoding/json"
 	"fmt"
 	"go/ast"
@@ -40,6 +41,8 @@ type FuncInfo struct {
 	Decl *ast.FuncDecl
 	Obj  *types.Func
 	Name string // pkgrel.(Recv).Name e.g. "index/scorch.(*Scorch).Close"
+
+	OrigDecl *ast.FuncDecl // the declaration as written, when Decl was normalised (see inline.go)
 }
 
 type undecided struct{ msg string }
@@ -161,6 +164,16 @@ func loadProg(repo string, overlayRoot string) *Prog {
 			}
 		}
 	}
+	p.normalise()
+	for _, l := range normaliseLog {
+		fmt.Println("normalise:", l)
+	}
+	if d := os.Getenv("VERIF_DUMP_FUNC"); d != "" {
+		if fi := p.funcs[d]; fi != nil {
+			printer.Fprint(os.Stdout, p.Fset, fi.Decl)
+			fmt.Println()
+		}
+	}
 	return p
 }
 
@@ -206,6 +219,9 @@ func (p *Prog) Func(name string) *FuncInfo { return p.funcs[name] }
 func (p *Prog) MustFunc(name string) *FuncInfo {
 	f := p.funcs[name]
 	if f == nil || f.Decl.Body == nil {
+		if h := hostOfVanished(p, name); h != nil {
+			return h
+		}
 		undecidedf("anchor function %s not found", name)
 	}
 	return f
